@@ -26,7 +26,7 @@ func withQuietOpt(base string, perm []int, restart bool) func() *Scenario {
 			return w.vals["quiet"] == 1 && w.vals["probed"] == 1 && w.converged()
 		}
 		sc.GiveUpAt, sc.GiveUpTo = sc.Horizon, "faults-stop" // a stalled fault phase is still followed by the quiet phase
-		sc.Horizon += 3000
+		sc.Horizon += 6000
 		sc.Steps = append(sc.Steps,
 			stepDo("faults-stop", nil, func(w *World) {
 				for k := range w.blocked {
@@ -85,6 +85,51 @@ func init() {
 				}),
 			}}
 	})
+	// Term gap: when the faults stop, the only majority that can talk is {L, A}: L (pre-vote on) has the longer log
+	// but sits two or more terms behind A (pre-vote on, shorter log), whose term was pumped by B - a server without
+	// pre-vote that campaigned alone for a while and is down for good now. A can never win (log behind); L must
+	// learn the newer term from A's pre-vote rejections and then win.
+	regScenario("term-gap", func() *Scenario {
+		ns := voters(3)
+		ns[1].PreVoteDisabled = true
+		term := func(w *World, id int) uint64 {
+			if n := w.nodes[id]; n.up && n.r != nil {
+				return n.r.CurrentTerm()
+			}
+			return 0
+		}
+		return &Scenario{Nodes: ns, Devs: DevAll, Horizon: 900, Goal: func(w *World) bool { return w.vals["bdown"] == 1 && w.converged() },
+			Steps: []Step{
+				stepApplyLeader("apply1"),
+				stepDo("isolate-B", func(w *World) bool { return whenSettled(w) && w.leader().id != 1 }, func(w *World) {
+					l := w.leader()
+					w.vals["L"] = l.id
+					w.vals["A"] = 3 - l.id - 1
+					w.vals["T"] = int(l.r.CurrentTerm())
+					w.isolate(1, true)
+				}),
+				stepDo("apply2-L+A", func(w *World) bool {
+					l := w.leader()
+					return l != nil && l.id == w.vals["L"] && w.callsDone() && w.netIdle()
+				}, func(w *World) { w.vals["c2"] = w.apply(w.leader(), 0).ID }),
+				stepDo("isolate-everyone+apply3-on-L", func(w *World) bool {
+					a := w.nodes[w.vals["A"]]
+					return w.calls[w.vals["c2"]].Done && w.netIdle() && a.r.LastIndex() == w.nodes[w.vals["L"]].r.LastIndex()
+				}, func(w *World) {
+					w.isolate(w.vals["L"], true)
+					if l := w.nodes[w.vals["L"]]; l.r.State() == raft.Leader {
+						w.apply(l, 0)
+					}
+				}),
+				stepDo("B-meets-A", func(w *World) bool { return int(term(w, 1)) >= w.vals["T"]+3 }, func(w *World) { w.cut(1, w.vals["A"], false) }),
+				stepDo("crash-B-for-good", func(w *World) bool { return int(term(w, w.vals["A"])) >= w.vals["T"]+3 && w.netIdle() }, func(w *World) {
+					w.crash(w.nodes[1])
+					w.vals["bdown"] = 1
+				}),
+			}}
+	})
+	regScenario("conv-term-gap", withQuietOpt("term-gap", []int{0, 1, 2}, false))
+	regScenario("conv2-term-gap", withQuietOpt("term-gap", []int{2, 1, 0}, false))
 	regScenario("conv-promote-cut", withQuietOpt("promote-cut", []int{0, 2, 1, 3}, false))
 	regScenario("conv2-promote-cut", withQuietOpt("promote-cut", []int{3, 1, 0, 2}, false))
 }
@@ -101,14 +146,32 @@ func (m *Monitors) convChecks() {
 		return
 	}
 	t0 := w.tvals["quiet"]
-	if w.now() > t0+convBound {
+	// (1) within the bound: one leader that accepted and acknowledged a write
+	if !m.convWriteOK && w.vals["probed"] == 1 {
+		if c := w.calls[w.vals["probeCall"]]; c.Done && c.Err == nil {
+			m.convWriteOK = true
+		}
+	}
+	if w.now() > t0+convBound && !m.convWriteOK {
+		m.convFlagged = true
+		why := "no leader"
+		if l := w.leader(); l != nil {
+			why = fmt.Sprintf("leader n%d, state %s", l.id, w.stateString())
+		}
+		m.fail("C12", "no-convergence-within-bound", "faults stopped at %v; at %v (more than %v later) the cluster has not elected a leader and acknowledged a write: %s", t0, w.now(), convBound, why)
+		return
+	}
+	// (2) every running member caught up. A leader retries an unreachable follower with exponential back-off, so
+	// the next attempt may come as late as the follower had been unreachable: the fault phase lasted t0, hence
+	// the allowance of t0 on top of the bound (a tighter bound would demand more than the property states).
+	if w.now() > t0+convBound+t0 {
 		if !(w.vals["probed"] == 1 && w.converged()) && !m.convReached {
 			m.convFlagged = true
 			why := "no leader"
 			if l := w.leader(); l != nil {
 				why = fmt.Sprintf("leader n%d, state %s", l.id, w.stateString())
 			}
-			m.fail("C12", "no-convergence-within-bound", "faults stopped at %v; at %v (more than %v later) the cluster has not elected a leader, accepted a write and caught every running member up: %s", t0, w.now(), convBound, why)
+			m.fail("C12", "no-convergence-within-bound", "faults stopped at %v after a fault phase of that length; at %v (more than %v + %v later) not every running member has caught up: %s", t0, w.now(), convBound, t0, why)
 		}
 	} else if w.vals["probed"] == 1 && w.converged() {
 		m.convReached = true
